@@ -255,8 +255,72 @@ def run(chk):
     # that the constant is appended unchanged, last, on an all-identity row and only when non-zero is decided by the abstract run of _terms_to_table (term-table)
     # ---- dispatch
     one = src.func(SYM, "_construct_symbolic_mpo_one_site")
-    tests = [unparse(n.test).replace(" ", "") for n in ast.walk(one.node) if isinstance(n, ast.If) and "algo" in unparse(n.test)]
-    chk.ob("algo-dispatch", "one-site dispatcher: qr prefix vs graph", tests == ["notalgo.startswith('qr')"], one.where, tests, "if not algo.startswith('qr'): graph else: qr", line=one.node.lineno)
+    # abstract run of the one-site dispatcher: which decomposition gets the table, and with what
+    from ..syminterp import SymInterp, Sym, Blob, OpenSym
+
+    class _Row(Sym):
+        def tobytes(self):
+            return self._name.encode()
+
+    class _Tab(Sym):
+        def __init__(self, name, rows, width):
+            super().__init__(name)
+            self.rows, self.shape = rows, (len(rows), width)
+
+        def __iter__(self):
+            return iter(self.rows)
+
+        def __len__(self):
+            return len(self.rows)
+
+        def __getitem__(self, k_):
+            return self.rows[k_]
+    deferred = []
+    for algo_ in ("qr", "Hopcroft-Karp", "Hungarian"):
+        called = []
+        rows = [_Row(x) for x in ("A", "B", "A", "C", "B")]
+        t_col = _Tab("table_col", rows, 3)
+        t_row = _Tab("table_row", [_Row(f"r{q}") for q in range(5)], 2)
+        coo = []
+
+        def unique(t, axis=None, return_inverse=False):
+            u = _Tab("unique(" + t._name + ")", t.rows, t.shape[1])
+            return (u, f"inverse({t._name})") if return_inverse else u
+
+        def coo_matrix(arg, **k_):
+            coo.append(arg)
+            return Sym("coo", tocsr=lambda: Sym("non_red"))
+        npx = OpenSym("np", make=lambda t_: Blob(t_), unique=unique, arange=lambda n_: _Ar(f"arange({n_})"))
+
+        class _Ar(Sym):
+            def __add__(self, o):
+                return _Ar(f"{self._name}+{o}")
+        it1 = SymInterp(src, None, {"np": npx, "scipy": Sym("scipy", sparse=Sym("sparse", coo_matrix=coo_matrix)),
+                                    "_decompose_graph": lambda *a: called.append(("graph", a)) or ("out_ops", "table", "factor"),
+                                    "_decompose_qr": lambda *a: called.append(("qr", a)) or ("out_ops", "table", "factor"), "len": lambda x: 5 if x == "factor" else len(x)})
+        it1.max_depth = 8
+        try:
+            res1 = it1.call_function(one, [t_row, t_col, ["in_ops"], "factor", "primary_ops", algo_, 1])
+        except (TypeError, KeyError, IndexError, AttributeError, ValueError) as e_:
+            # the stand-ins of this run do not model the operation: the other rules report first, the run's incapacity is raised at the end
+            deferred.append(AnalysisError(f"{one.where}[{algo_}]: abstract run of the one-site dispatcher: {type(e_).__name__}: {e_}"))
+            continue
+        want_kind = "qr" if algo_ == "qr" else "graph"
+        probs1 = []
+        if [c[0] for c in called] != [want_kind]:
+            probs1.append(f"decompositions called: {[c[0] for c in called]}, expected {[want_kind]}")
+        else:
+            a_ = called[0][1]
+            col_ids = [r._name for r in a_[1]] if isinstance(a_[1], list) else None
+            if len(a_) != 8 or not isinstance(a_[0], _Tab) or a_[0]._name != "unique(table_row)" or col_ids != ["A", "B", "C"] or getattr(a_[2], "_name", None) != "non_red" \
+                    or list(a_[3:]) != [["in_ops"], "factor", "primary_ops", algo_, 1]:
+                probs1.append(f"arguments {[getattr(x, '_name', x) for x in a_]}; expected (unique rows of the row part, unique rows of the column part in first-seen order, the sparse table, in_ops_list, factor, primary_ops, algo, k)")
+            if len(coo) != 1 or not (isinstance(coo[0], tuple) and len(coo[0]) == 2 and getattr(coo[0][0], "_name", None) == "arange(5)+1" and coo[0][1][0] == "inverse(table_row)" and list(coo[0][1][1]) == [0, 1, 0, 2, 1]):
+                probs1.append(f"sparse table built from {coo}; expected entries 1..n_terms at (row class, column class) of every term")
+            if res1 != ("out_ops", "table", "factor"):
+                probs1.append("the decomposition's result is not returned")
+        chk.ob("algo-dispatch", f"one-site dispatcher[{algo_}]", not probs1, one.where, probs1[:2] or f"{want_kind} decomposition of the (row class x column class) table", f"{want_kind} decomposition of the (row class x column class) table",
+               line=one.node.lineno, detail="names starting with 'qr' go to the QR decomposition, every other documented name to the bipartite-graph decomposition: " + (probs1[0] if probs1 else ""))
     bvc = src.func(BIP, "bipartite_vertex_cover")
     names = []
     reject = False
@@ -490,6 +554,8 @@ def run(chk):
     txt = unparse(dd.node).replace(" ", "")
     ok = "np.unique(table,axis=0,return_inverse=True)" in txt and "factor=mask.dot(factor)" in txt and "coord[:,0],coord[:,1]" in txt
     chk.ob("split-order", "duplicate rows merged by summing their factors", ok, dd.where, ok, True, line=dd.node.lineno)
+    if deferred:
+        raise deferred[0]
 
 
 META = {
